@@ -142,23 +142,34 @@ Qed.
 Definition accepted (s : string) : bool :=
   match strict_parse ("OPENQASM 2.0; include ""qelib1.inc""; qreg q[2]; creg c[2]; " ++ s)%string with
   | Some p => wf lib_sigs p | None => false end.
-(* rx with angle 0.0 loses its parameter; 1e-09 is not a real; a tuple prints with its parentheses; measure lacks ';' *)
+(* rx with angle 0.0 loses its parameter; 1e-09 is not a real; a tuple prints with its parentheses *)
 Theorem format_unfixed_refuted :
   (exists t, qasm_str_unfixed "rx" [] [0] (PNum (NFloat (FDec false "0" "0"))) = Some t /\ accepted t = false) /\
   (exists t, qasm_str_unfixed "rx" [] [0] (PNum (NFloat (FExp false "1" None true "09"))) = Some t /\ accepted t = false) /\
-  (exists t, qasm_str_unfixed "U" [] [0] (PTuple [NFloat (FDec false "1" "0"); NFloat (FDec false "2" "0"); NInt false 3]) = Some t /\ accepted t = false) /\
-  accepted (meas_text_unfixed 1 0) = false.
+  (exists t, qasm_str_unfixed "U" [] [0] (PTuple [NFloat (FDec false "1" "0"); NFloat (FDec false "2" "0"); NInt false 3]) = Some t /\ accepted t = false).
 Proof.
-  split; [|split; [|split]].
+  split; [|split].
   - eexists; split; [vm_compute; reflexivity|]. vm_compute. reflexivity.
   - eexists; split; [vm_compute; reflexivity|]. vm_compute. reflexivity.
   - eexists; split; [vm_compute; reflexivity|]. vm_compute. reflexivity.
-  - vm_compute. reflexivity.
 Qed.
+(* CURRENT code (kept: the missing ';' is pinned by the repository's own test): a circuit with a measurement is exported to
+   a text the strict reader does not accept; the same circuit without the measurement is accepted *)
+Definition strict_ok (c : QV.Model.QasmExport.ecirc) : option bool :=
+  match export c with
+  | Some t => Some (match strict_parse t with Some p => wf lib_sigs p | None => false end)
+  | None => None end.
+Theorem valid_measure_refuted : exists c, no_meas c = false /\ strict_ok c = Some false.
+Proof. exists (mkEC 2 1 [EGate "X" [0] [] PNone false; EMeas 1 (Some 0)]). split; vm_compute; reflexivity. Qed.
+Example valid_without_measure : no_meas (mkEC 2 1 [EGate "X" [0] [] PNone false]) = true /\
+  strict_ok (mkEC 2 1 [EGate "X" [0] [] PNone false]) = Some true.
+Proof. split; vm_compute; reflexivity. Qed.
+(* the measure line is the only obstacle: with the ';' the statement is accepted *)
+Example measure_line_with_semicolon : accepted (meas_text 1 0) = false /\ accepted (meas_text 1 0 ++ ";")%string = true.
+Proof. split; vm_compute; reflexivity. Qed.
 (* the same values through the fixed formatting are accepted *)
 Example format_fixed_ok :
   (exists t, qasm_str "rx" [] [0] (PNum (NFloat (FDec false "0" "0"))) = Some t /\ accepted t = true) /\
   (exists t, qasm_str "rx" [] [0] (PNum (NFloat (FExp false "1" None true "09"))) = Some t /\ accepted t = true) /\
-  (exists t, qasm_str "U" [] [0] (PTuple [NFloat (FDec false "1" "0"); NFloat (FDec false "2" "0"); NInt false 3]) = Some t /\ accepted t = true) /\
-  (exists t, op_text export_names (EMeas 1 (Some 0)) = Some t /\ accepted t = true).
-Proof. split; [|split; [|split]]; (eexists; split; [vm_compute; reflexivity|]; vm_compute; reflexivity). Qed.
+  (exists t, qasm_str "U" [] [0] (PTuple [NFloat (FDec false "1" "0"); NFloat (FDec false "2" "0"); NInt false 3]) = Some t /\ accepted t = true).
+Proof. split; [|split]; (eexists; split; [vm_compute; reflexivity|]; vm_compute; reflexivity). Qed.
